@@ -324,13 +324,20 @@ def _build_critic_markup(
     # Strip balanced markers from target
     prefix_markup, clean_target, suffix_markup = _strip_balanced_markers(target_text)
 
-    # If we stripped markers from target, try to strip the SAME markers from new_text
+    # If we stripped markers from target, strip the SAME markers from new_text. When the new text
+    # does not carry them, the markers are part of what is replaced and stay inside the suggestion
+    # (otherwise accepting '**{--Term--}{++Name++}**' would give '**Name**' for the new text 'Name').
     clean_new = new_text
-    if prefix_markup and new_text:
-        # Check if new_text has the same outer markers
-        if new_text.startswith(prefix_markup) and new_text.endswith(suffix_markup):
-            inner_len = len(prefix_markup)
-            clean_new = new_text[inner_len:-inner_len] if len(new_text) > inner_len * 2 else new_text
+    if prefix_markup and not highlight_only:
+        inner_len = len(prefix_markup)
+        if (
+            len(new_text) > inner_len * 2
+            and new_text.startswith(prefix_markup)
+            and new_text.endswith(suffix_markup)
+        ):
+            clean_new = new_text[inner_len:-inner_len]
+        else:
+            prefix_markup, clean_target, suffix_markup = "", target_text, ""
 
     parts.append(prefix_markup)
 
